@@ -18,13 +18,13 @@ type Fail struct {
 
 // Alloc is an allocation sized by a count taken from the wire.
 type Alloc struct {
-	Operand string
-	Kind    string // "slice" | "map"
-	Stream  bool
-	Bounded bool // a check relating the count to the remaining input precedes it
-	Hint    bool // make() is given the count (maps may omit it)
+	Operand  string
+	Kind     string // "slice" | "map"
+	Stream   bool
+	Bounded  bool // a check relating the count to the remaining input precedes it
+	Hint     bool // make() is given the count (maps may omit it)
 	ZeroSize bool // elements occupy no memory (field-less struct)
-	Pos     token.Pos
+	Pos      token.Pos
 }
 
 // Limiter describes the io.LimitedReader installed by a stream decoder.
@@ -66,14 +66,14 @@ type Lifter struct {
 	// is constant is that constant (the other side of the comparison, the bytes
 	// EncodeBebop writes, is folded the same way by SizeOf)
 	foldFixedSize bool
-	brPrefixVar string // byte decoder: the variable holding the record's length prefix
+	brPrefixVar   string // byte decoder: the variable holding the record's length prefix
 	// byte writer that fills the length prefix in last: `at := 4` leaves a
 	// hole, iohelp.WriteUint32Bytes(buf, uint32(at-K)) directly before a
 	// `return at` fills it with (what that return reports) - K
 	bwHole    bool
 	bwPatched bool
 	bwPatchK  []int
-	Safe    bool     // reader: checks are required
+	Safe      bool // reader: checks are required
 	// RecClass maps the Go name of a nested record type to "struct", "message"
 	// or "union" ("" = unknown); supplied by the caller from the schema it built.
 	RecClass func(goName string) string
